@@ -83,6 +83,29 @@ Section Item.
         rewrite line_not_nl by exact Hc0. cbn [fold_left next_nl] in Hnl. rewrite (IH l2 more mk2 _ _ _ Hls Hnl Hc Hi Hm Hs).
         cbn [map render_line rev length]. rewrite <- app_assoc. cbn [app]. f_equal. f_equal. lia.
   Qed.
+
+  (* ... and when the next item follows directly *)
+  Lemma item_loop_embedded_tight : forall ls l2 more mk2 buf taken nl,
+    Forall sline_ok ls -> fold_left next_nl ls nl = O ->
+    parse_continuation l2 (Z.of_nat w) = None -> item_interrupt types (l2 :: more) = false ->
+    parse_marker l2 = Some mk2 -> same_marker_type leader (match mk2 with (_, _, other, _) => other end) = true ->
+    item_loop types leader (map (embed_line w) ls ++ l2 :: more) (Z.of_nat w) buf taken nl =
+    (rev (rev (map render_line ls) ++ buf), (taken + length ls)%nat, Some mk2).
+  Proof.
+    induction ls as [|l ls IH]; intros l2 more mk2 buf taken nl Hok Hnl Hc Hi Hm Hs.
+    - cbn [map app fold_left rev length] in *. rewrite Nat.add_0_r.
+      cbn [item_loop]. rewrite Hc, Hi, Hm.
+      destruct mk2 as [[[i p] other] ct]. rewrite Hs. reflexivity.
+    - inversion Hok as [|? ? Hl Hls]; subst. cbn [map app item_loop].
+      destruct l as [|k c body]; cbn [embed_line].
+      + rewrite parse_continuation_blank. cbn [fold_left next_nl] in Hnl. rewrite (IH l2 more mk2 _ _ _ Hls Hnl Hc Hi Hm Hs).
+        cbn [str_eqb Z.eqb Pos.eqb map render_line rev length]. rewrite <- app_assoc. cbn [app]. f_equal. f_equal. lia.
+      + destruct Hl as [Hc0 Hb].
+        rewrite parse_continuation_line by (try assumption; lia).
+        replace (w + k - Z.to_nat (Z.of_nat w))%nat with k by lia.
+        rewrite line_not_nl by exact Hc0. cbn [fold_left next_nl] in Hnl. rewrite (IH l2 more mk2 _ _ _ Hls Hnl Hc Hi Hm Hs).
+        cbn [map render_line rev length]. rewrite <- app_assoc. cbn [app]. f_equal. f_equal. lia.
+  Qed.
 End Item.
 
 Section Law.
@@ -146,6 +169,29 @@ Section Law.
     { cbn [rev]. rewrite rev_app_distr, rev_involutive. reflexivity. }
     match goal with |- context [rec ?x ln st] => replace x with (text ++ [NL]) by (symmetry; exact Eb) end.
     destruct (rec (text ++ [NL]) ln st) as [[es lo] st']. replace (1 + length rest)%nat with (S (length rest)) by reflexivity. reflexivity.
+  Qed.
+
+  (* the item when the next item of the list follows directly *)
+  Lemma read_item_tight l2 more mk2 ln st :
+    parse_continuation l2 (Z.of_nat w) = None -> item_interrupt types (l2 :: more) = false ->
+    parse_marker l2 = Some mk2 -> same_marker_type ms (match mk2 with (_, _, other, _) => other end) = true ->
+    read_item types rec (embedded ++ l2 :: more) ln None st =
+    let '(es, lo, st') := rec text ln st in
+    (PItem ln es lo 0 (Z.of_nat w) ms, S (length rest), Some mk2, st').
+  Proof.
+    intros Hc Hi Hm Hs.
+    unfold read_item, embedded, first_line, ms. cbn [app].
+    rewrite (parse_marker_line mk pad c0 body0 Hmk Hpad Hc0).
+    assert (Nb : is_blank (c0 :: body0 ++ [10]) = false).
+    { apply not_blank_first. unfold nonspace in Hc0. apply negb_true_iff in Hc0. exact Hc0. }
+    rewrite Nb.
+    assert (Ew : slen (marker_str mk) + Z.of_nat pad = Z.of_nat w) by (unfold w, ms, slen; lia).
+    assert (Fr : fold_left next_nl rest 0%nat = 0%nat) by (eapply fold_rest; eassumption).
+    rewrite Ew. rewrite (item_loop_embedded_tight types (marker_str mk) w rest l2 more mk2 _ _ _ Hrest Fr Hc Hi Hm Hs).
+    assert (Eb : rev (rev (map render_line rest) ++ [c0 :: body0 ++ [10]]) = text).
+    { rewrite rev_app_distr, rev_involutive. reflexivity. }
+    match goal with |- context [rec ?x ln st] => replace x with text by (symmetry; exact Eb) end.
+    destruct (rec text ln st) as [[es lo] st']. replace (1 + length rest)%nat with (S (length rest)) by reflexivity. reflexivity.
   Qed.
 
   Lemma start_read_list_tail ln st :
